@@ -38,6 +38,22 @@ class NotInlinable(Exception):
   pass
 
 
+def _fast_copy(node):
+  """Structural copy of a syntax tree (much cheaper than copy.deepcopy)."""
+  if isinstance(node, list):
+    return [_fast_copy(x) for x in node]
+  if isinstance(node, ast.AST):
+    new = node.__class__()
+    for f in node._fields:
+      if hasattr(node, f):
+        setattr(new, f, _fast_copy(getattr(node, f)))
+    for a in node._attributes:
+      if hasattr(node, a):
+        setattr(new, a, getattr(node, a))
+    return new
+  return node
+
+
 def _count_stmts(fn):
   return sum(1 for n in ast.walk(fn) if isinstance(n, ast.stmt)) - 1
 
@@ -47,7 +63,7 @@ def _is_docstring(st):
       isinstance(st.value.value, str)
 
 
-def _callee_ok(fn):
+def _callee_ok(fn, private_only=True):
   a = fn.args
   if a.vararg or a.kwarg or a.posonlyargs:
     return False
@@ -55,7 +71,8 @@ def _callee_ok(fn):
     if not (isinstance(d, ast.Name) and d.id in ('staticmethod',
                                                  'classmethod')):
       return False
-  if not fn.name.startswith('_') or fn.name.startswith('__'):
+  if private_only and (not fn.name.startswith('_') or
+                       fn.name.startswith('__')):
     return False  # only private helpers (the product of "extract method")
   if _count_stmts(fn) > MAX_STMTS:
     return False
@@ -169,7 +186,7 @@ def _elim_returns(stmts, ret):
         out.append(ast.copy_location(ast.If(
             test=st.test, body=r or [ast.Pass()], orelse=orelse), st))
         return out, rt
-      b2, bt2 = _elim_returns(st.body + copy.deepcopy(rest), ret)
+      b2, bt2 = _elim_returns(st.body + _fast_copy(rest), ret)
       o2, ot2 = _elim_returns(st.orelse + rest, ret)
       out.append(ast.copy_location(ast.If(
           test=st.test, body=b2 or [ast.Pass()], orelse=o2), st))
@@ -207,7 +224,7 @@ class _Subst(ast.NodeTransformer):
 
   def visit_Name(self, n):
     if isinstance(n.ctx, ast.Load) and n.id in self.mapping:
-      return ast.copy_location(copy.deepcopy(self.mapping[n.id]), n)
+      return ast.copy_location(_fast_copy(self.mapping[n.id]), n)
     if n.id in self.rename:
       return ast.copy_location(ast.Name(id=self.rename[n.id], ctx=n.ctx), n)
     return n
@@ -325,6 +342,13 @@ class Inliner(object):
           return None
         return fn, q, k, recv
       return None
+    if isinstance(f, ast.Name):
+      # a closure defined directly in the caller's body (and never rebound)
+      local = [x for x in caller.body if isinstance(x, ast.FunctionDef) and
+               x.name == f.id]
+      if len(local) == 1 and f.id not in _stores(
+          [s for s in caller.body if s is not local[0]]):
+        return local[0], '<local>.' + f.id, 'closure', None
     if isinstance(f, ast.Name) and f.id in self.module_funcs:
       if f.id in _stores(caller) or f.id in [a.arg for a in caller.args.args]:
         return None
@@ -334,6 +358,8 @@ class Inliner(object):
   def inlinable(self, fn, qual):
     if (self.relpath, qual) in self.anchors:
       return False
+    if qual.startswith('<local>.'):
+      return _callee_ok(fn, private_only=False) and not fn.decorator_list
     if not _callee_ok(fn):
       return False
     if self.foreign_text('def %s(' % fn.name):
@@ -374,7 +400,7 @@ class Inliner(object):
       if p != implicit and p not in bind:
         raise NotInlinable('missing argument %s' % p)
     body = [s for s in fn.body if not _is_docstring(s)]
-    body = copy.deepcopy(body)
+    body = _fast_copy(body)
     stores = _stores(body)
     astores = _attr_stores(body)
     mapping, prefix, rename = {}, [], {}
@@ -416,7 +442,7 @@ class Inliner(object):
           rename[p] = new
         prefix.append(ast.copy_location(ast.Assign(
             targets=[ast.Name(id=new, ctx=ast.Store())],
-            value=copy.deepcopy(a)), call))
+            value=_fast_copy(a)), call))
         caller_names.add(new)
     for l in sorted(stores):
       if l in params:
@@ -431,7 +457,7 @@ class Inliner(object):
       if not body or not isinstance(body[-1], (ast.Return, ast.Raise)):
         falls = True
         try:
-          _, term = _elim_returns(copy.deepcopy(body), None)
+          _, term = _elim_returns(_fast_copy(body), None)
           falls = not term
         except NotInlinable:
           falls = True
@@ -558,6 +584,12 @@ class Inliner(object):
         i += 1
 
     do_block(caller.body, frozenset([qual]), 0)
+    for x in list(caller.body):
+      if isinstance(x, ast.FunctionDef) and self.inlined_calls.get(id(x), 0):
+        used = any(isinstance(n, ast.Name) and n.id == x.name
+                   for s in caller.body if s is not x for n in ast.walk(s))
+        if not used and len(caller.body) > 1:
+          caller.body.remove(x)
     ast.fix_missing_locations(caller)
 
   def run(self):
